@@ -83,6 +83,10 @@ namespace sim
         // harness-owned memory (slots, static storage): where = 0 below the block area, 1 above, 2 inside
         void* harness_alloc(std::size_t size, std::size_t align, int where);
         void  harness_free(void* p);
+        // harness-owned memory at an exact position (adjacent to some block); nullptr if occupied
+        void* harness_alloc_at(std::size_t off, std::size_t size);
+        // offsets of the live blocks of an owner, in address order
+        std::vector<std::pair<std::size_t, std::size_t>> blocks_of(int owner) const;
 
         // mmap emulation
         bool commit(void* p, std::size_t len, bool on); // mprotect; false if not a reserved range
